@@ -1,8 +1,80 @@
-//! C08 correspondence streams (stub).
-use crate::util::Opts;
+//! C08 / C09 (instruction-stepped): every sequence over {EI, DI, RETI, HALT, STOP, NOP, LDH (0F),A, LDH (FF),A}
+//! up to a bounded length, from every master-enable / run state and pending pattern, through `Core::update`
+//! (non-jit build: one instruction per step). After every step: IME, run state, PC, SP, IF, IE, and the clocks the
+//! timer has received (divider hook).
+//! c08 seq=<idx,...> ime= run= if= ie= a= steps= | t=<ime,run,pc,sp,if,ie,div per step ; ...>
+use crate::devices::interrupts::InterruptFlag;
+use crate::emulator::{InterruptState, RunState};
+use crate::mem::{memory_read_byte, memory_write_byte, MemoryAreas};
+use crate::roms::*;
+use crate::util::{Opts, Rng};
 use std::io::Write;
 
-pub fn run(sub: &str, _opts: &Opts, _w: &mut dyn Write) {
-  eprintln!("stream c08.{} not implemented", sub);
-  std::process::exit(2);
+pub const ALPHA: [&[u8]; 8] = [&[0xfb], &[0xf3], &[0xd9], &[0x76], &[0x10, 0x00], &[0x00], &[0xe0, 0x0f], &[0xe0, 0xff]];
+
+fn ime_of(k: u32) -> InterruptState { match k { 0 => InterruptState::Enabled, 1 => InterruptState::Disabled, _ => InterruptState::EnableNext } }
+fn ime_code(s: &InterruptState) -> u32 { match s { InterruptState::Enabled => 0, InterruptState::Disabled => 1, InterruptState::EnableNext => 2 } }
+fn run_of(k: u32) -> RunState { match k { 0 => RunState::Run, 1 => RunState::Stop, _ => RunState::Halt } }
+fn run_code(s: &RunState) -> u32 { match s { RunState::Run => 0, RunState::Stop => 1, RunState::Halt => 2 } }
+
+pub fn run_seq(seq: &[usize], ime: u32, run: u32, ifl: u8, ie: u8, a: u8, w: &mut dyn Write) {
+  let mut core = mk_core(0x03, 1, 3);
+  for i in 0..0x100 { core.memory.rom[i] = 0x00; }           // interrupt vectors and reset area: NOP sled
+  let p = &mut core.memory as *mut MemoryAreas;
+  let mut addr = 0xc000u16;
+  for &k in seq { for &b in ALPHA[k] { memory_write_byte(p, addr, b); addr += 1; } }
+  // RETI targets: the stack holds 0xC100 repeatedly (a NOP sled in WRAM, which is zero-filled)
+  let mut sp = 0xdff0u16;
+  for _ in 0..8 { memory_write_byte(p, sp, 0x00); memory_write_byte(p, sp.wrapping_add(1), 0xc1); sp = sp.wrapping_add(2); }
+  core.registers.sp = 0xdff0; core.registers.ip = 0xc000; core.registers.af = (a as u32) << 8;
+  core.memory.io.interrupt_flag = InterruptFlag::new(ifl);
+  core.memory.io.interrupt_mask = ie;
+  core.interrupts_enabled = ime_of(ime);
+  core.run_state = run_of(run);
+  let steps = seq.len() + 3;
+  let mut t: Vec<String> = Vec::new();
+  for _ in 0..steps {
+    core.update();
+    let div = core.memory.io.timer.verif_state().0;
+    t.push(format!("{},{},{},{},{},{},{}", ime_code(&core.interrupts_enabled), run_code(&core.run_state), { core.registers.ip },
+      { core.registers.sp }, core.memory.io.interrupt_flag.as_u8(), memory_read_byte(p, 0xffff), div));
+  }
+  let sq: Vec<String> = seq.iter().map(|k| k.to_string()).collect();
+  writeln!(w, "c08 seq={} ime={} run={} if={} ie={} a={} steps={} | t={}", sq.join(","), ime, run, ifl, ie, a, steps, t.join(";")).unwrap();
+}
+
+pub fn run(_sub: &str, opts: &Opts, w: &mut dyn Write) {
+  let (shard, nshards) = opts.shard();
+  let maxlen = if opts.thorough { 5 } else { 3 };
+  let mut rng = Rng::new(opts.seed ^ 0xc08);
+  let mut idx = 0usize;
+  // all sequences up to maxlen
+  let mut seqs: Vec<Vec<usize>> = vec![vec![]];
+  let mut frontier: Vec<Vec<usize>> = vec![vec![]];
+  for _ in 0..maxlen {
+    let mut next = Vec::new();
+    for s in frontier.iter() { for k in 0..8 { let mut t = s.clone(); t.push(k); next.push(t); } }
+    seqs.extend(next.iter().cloned());
+    frontier = next;
+  }
+  let pend: [(u8, u8); 4] = [(0, 0), (4, 0), (0, 4), (4, 4)];
+  for s in seqs.iter() { for ime in 0..3u32 { for run in 0..3u32 { for &(ifl, ie) in pend.iter() {
+    idx += 1;
+    if idx % nshards != shard { continue; }
+    // A selects what the LDH instructions write: the timer bit, the vblank bit, or nothing
+    let a = *rng.pick(&[0x04u8, 0x04, 0x01, 0x00, 0x05]);
+    run_seq(s, ime, run, ifl, ie, a, w);
+  }}}}
+  // random longer sequences
+  let n = if opts.thorough { 20000 } else { 500 };
+  for _ in 0..n {
+    idx += 1;
+    let len = 4 + rng.below(9) as usize;
+    let s: Vec<usize> = (0..len).map(|_| rng.below(8) as usize).collect();
+    let (ime, run) = (rng.below(3) as u32, rng.below(3) as u32);
+    let &(ifl, ie) = rng.pick(&pend);
+    let a = *rng.pick(&[0x04u8, 0x01, 0x00, 0x1f]);
+    if idx % nshards != shard { continue; }
+    run_seq(&s, ime, run, ifl, ie, a, w);
+  }
 }
